@@ -4,6 +4,7 @@ import (
 	"errors"
 	"path/filepath"
 	"runtime"
+	"strconv"
 	"time"
 )
 
@@ -189,4 +190,52 @@ func VH_C09E() {
 	vAssert(len(rec.evs) == n0+1, "C09: the probe writes one record")
 	vCover("C09E:compared")
 	vAssert(rec.evs[n0].P == ref, "C09: the record's bytes do not depend on the records written before it (entry points)")
+}
+
+// VH_C09X: history independence across executions. Every path of the harness
+// is executed by the engine in a fresh interpreter with pristine package
+// state - a separate process as far as the library is concerned. The probe B
+// is written after no history at all or after a history record A (as in H),
+// and its payload is handed to vSame under a key naming B's own inputs
+// (shape, logger configuration, global flags): all executions must observe
+// the same payload for the same key. Unlike H there is no reference run in
+// the same process, so state cached anywhere - package variables, memo
+// tables keyed by file or call site - cannot be warmed by the check itself.
+func VH_C09X() {
+	vProduction()
+	if vParam("testmode", 0) == 1 {
+		inTesting = true
+	}
+	_ = RegisterLevel(vC09NoColor, "cnorm")
+	file, _ := runtime.FuncForPC(vPC1()).FileLine(vPC1())
+	AddKnownPathMapping(filepath.Dir(file), "~r")
+	shapes := vShapes()
+	rec := &vRec{}
+	fb := vChoose(vParam("fb", 3))
+	sb := vChoose(len(shapes))
+	flagsB := LstdFlags
+	fsel := vChoose(2)
+	if fsel == 1 {
+		flagsB &^= Lcaller
+	}
+	lgB := vC09Logger("b", rec, fb)
+	if h := vChoose(len(shapes) + 1); h > 0 {
+		// a history record, on the probe's logger or another one, under flags that may differ in one bit
+		flags = flagsB ^ []Flags{0, Lprivacypath, Lcaller}[vChoose(3)]
+		lgA := lgB
+		if vBool() {
+			lgA = vC09Logger("a", rec, vChoose(vParam("fa", 4)))
+		}
+		vC09Emit(lgA, shapes[h-1])
+	}
+	flags = flagsB
+	n0 := len(rec.evs)
+	vC09Emit(lgB, shapes[sb])
+	vAssert(len(rec.evs) == n0+1, "C09: the probe writes one record")
+	vCover("C09X:observed")
+	if s := shapes[sb].sev; s == vC09NoColor || s == Level(77) {
+		vKnown("C09-stale-colour-for-levels-without-colour")
+	}
+	vSame("B/"+strconv.Itoa(fb)+"/"+strconv.Itoa(sb)+"/"+strconv.Itoa(fsel)+"/"+strconv.Itoa(vParam("testmode", 0)), rec.evs[n0].P)
+	vKnown("")
 }
